@@ -19,7 +19,7 @@ import shutil  # noqa: E402
 CHANNEL = [
     ("StaleBrokenRead", "two-two-b0-noclose", ("NoLockWedge", "NoStrandedCall")),
     ("RcvSleepsThroughReconnect", "two-two-b0-noclose", ("NoStrandedCall",)),
-    ("EnqIgnoresCtx", "two-sw-w0", ("CtxPrompt",)),
+    ("EnqIgnoresCtx", "two-two-w0", ("CtxPrompt",)),
     ("OneWayConfirmIgnoresCtx", "two-sw-w0", ("CtxPrompt",)),
     ("StreamRouteBlocksUnderRM", "stream-two-e2", ("NoStrandedCall", "CtxPrompt", "CloseTerminates", "NoResidue")),
     ("BufferedSendQStrands", "sw-nsw-b1", ("CloseTerminates", "NoStrandedCall")),
